@@ -14,6 +14,8 @@ import contextlib
 import gc
 import io
 import logging
+import signal
+import threading
 import warnings
 
 import numpy as np
@@ -35,57 +37,80 @@ logging.getLogger("gemseo").setLevel(logging.CRITICAL)  # LOGGER.exception of sk
 PROPERTY = "C03"
 LEVEL = "exploration"
 RULE = (
-    "Hypothesis draws an algorithm name among OptimizationLibraryFactory().algorithms (resp. DOELibraryFactory()."
-    "algorithms) and builds, inside the capabilities declared in its ALGORITHM_INFOS (constraint kinds, linear-only "
-    "and coefficient-reading solvers get MDOLinearFunction problems, integer variables only for integer-handling "
-    "algorithms, two objectives for MNBI), a problem over 1-4 bounded variables: dyadic quadratic / affine / linear "
-    "objective, 0-2 constraints of dim 1-2, optional NaN rule (k-th distinct point or half-space), user / finite / "
-    "centered / complex-step derivatives, budget max_iter 1-25 (1-10 for global and composite algorithms), "
-    "normalisation, database, Jacobian storage and integer rounding on/off, a stop mode (budget only, constant "
-    "objective + ftol_abs, xtol_abs=1e9, max_time=1e-9, NaN) and optionally a second execute on the same problem by "
-    "another compatible algorithm with or without reset_iteration_counters.  The user's callables count calls per "
-    "physical point.  Oracles per execution: len(database) grows by <= N (<= max(0, N - entries of the first run) "
-    "when counters are kept); the callables see <= N distinct points, probe points of derivative approximation "
-    "(complex, or one component within 1e-5*(ub-lb) of a database key) left out; execute returns an "
-    "OptimizationResult whose x_opt is a database key, whose f_opt / is_feasible are those recorded there and which "
-    "is the best feasible recorded point; with max_time=1e-9 exactly one entry is created and the message names the "
-    "time limit.  DOE: database keys of the non-failing samples == de-duplicated generated samples in generation "
-    "order, each evaluated exactly once by every function with the exact value recorded, failing samples (ValueError "
-    "rule) disturb nobody; second DOE run with kept counters creates only a prefix within the remaining budget.  "
-    "Non-trivial = an execution that GEMSEO ended (message contains 'GEMSEO stopped the driver') or a DOE holding a "
-    "duplicated or failing sample; distinct = structural hash of the payload."
+    "One Hypothesis drive per algorithm of OptimizationLibraryFactory().algorithms and of DOELibraryFactory()."
+    "algorithms (MNBI excluded, see assumptions).  For an optimiser the problem is built inside the capabilities "
+    "declared in its ALGORITHM_INFOS (constraint kinds, MDOLinearFunction problems for linear-only / coefficient-"
+    "reading solvers, integer variables only if handled, approximated derivatives only if gradients are required): "
+    "1-4 bounded variables, dyadic quadratic / affine / linear objective, 0-2 constraints of dim 1-2, optional NaN "
+    "rule (k-th distinct point or half-space), user / finite / centered / complex-step derivatives, max_iter 1-25 "
+    "(1-10 for global and composite algorithms), normalisation, database, Jacobian storage and integer rounding "
+    "on/off, a stop mode (budget only; constant objective + ftol_abs=1e-3 or ftol_abs=1e9; xtol_abs=1e9; "
+    "max_time=1e-9; NaN) and optionally a second execute on the same problem by another compatible algorithm with "
+    "or without reset_iteration_counters.  The user's callables record the physical point of every call.  Oracles "
+    "per execution: len(database) grows by <= N (<= max(0, N - entries of the first run) when counters are kept); "
+    "the callables see <= N distinct points that were not database keys before the execution, derivative-"
+    "approximation probes left out (complex points; points within 1e-5*(ub-lb) in one component of a key or of an "
+    "earlier point are clustered with it); problem.evaluation_counter.current == number of new entries (plus the kept "
+    "value); the first database entry holds the objective and every constraint (a budget >= 1 pays for the whole "
+    "first point); execute returns an OptimizationResult (any exception is a violation) whose x_opt is a database "
+    "key, whose f_opt / is_feasible are those recorded there and which is the best feasible recorded point; with "
+    "max_time=1e-9 exactly one entry is created and the message names the time limit.  DOE (serial, 1 in 6 with "
+    "n_processes=2): database keys of the non-failing samples == de-duplicated lib.samples in generation order, "
+    "each called exactly once per function (and per Jacobian with eval_jac), recorded value == returned value, NaN "
+    "recorded as NaN, samples refused by a ValueError rule disturb nobody, nothing but samples is evaluated, counter "
+    "== new entries; a second DOE run sees only the new samples, a prefix of them within the remaining budget when "
+    "counters are kept.  Non-trivial = an execution that GEMSEO ended (message contains 'GEMSEO stopped the "
+    "driver') or a DOE holding a duplicated or failing sample or cut by a kept counter; distinct = structural hash "
+    "of the payload."
 )
 ASSUMPTIONS = [
-    "every design variable has finite bounds lb < ub and a current value (optimisers); integer variables only for "
-    "algorithms declaring handle_integer_variables; approximated derivatives only on all-float, non-linear problems",
+    "every design variable has finite bounds lb < ub and (for optimisers) a current value; integer variables only for "
+    "algorithms declaring handle_integer_variables (never for composite ones: MultiStart's capability depends on its "
+    "sub-algorithm); approximated derivatives only on all-float, non-linear problems and only for algorithms "
+    "declaring require_gradient (complex_step turns the design space complex, which gradient-free SciPy optimisers "
+    "reject for reasons unrelated to budgets)",
     "the second execution keeps normalize_design_space / use_database / round_ints / store_jacobian of the first "
-    "(functions are preprocessed once per problem)",
+    "(functions are preprocessed once per problem) and is never a composite or NLOPT_NEWUOA run",
     "composite algorithms are held to their documented per-level budgets: MultiStart to max_iter in total (it "
-    "documents 1 + sum of the sub-budgets <= max_iter and shares the functions of the main problem); "
-    "Augmented_Lagrangian_* to max_iter entries in the main database and max_iter * sub max_iter further distinct "
-    "points (sub-problems are built on the original functions with their own database); MNBI to max_iter entries "
-    "in the main database, and all of them to 'returns a result'",
-    "MNBI is excluded: " + "multi-objective only, result built from the Pareto front of the history (C04), documented "
-    "RuntimeError when a sub-optimisation ends without a feasible optimum (what a spent budget produces)",
-    "NLOPT_NEWUOA needs dimension >= 2 (NLopt) and is only given max_iter <= 2*dim-1 and never used for the second "
-    "execution: once GEMSEO forces a stop at or after the last point of its initial interpolation set NLopt's C code "
-    "spends 30-90 s before returning (no budget is exceeded, the time budget of the check is)",
+    "documents 1 + sum of the sub-budgets <= max_iter and shares the functions of the main problem; max_iter > n_start "
+    "is its documented precondition); Augmented_Lagrangian_* to max_iter entries in the main database and max_iter * "
+    "sub max_iter further distinct points (sub-problems are built on the original functions with their own database), "
+    "with the sub-driver given the normalisation of the main run, a 1-D objective gradient and array-valued "
+    "constraints (LagrangeMultipliers / the in-place multiplier update fail otherwise, unrelated to budgets)",
+    "MNBI is excluded: multi-objective only, result built from the Pareto front of the history (C04; fails on "
+    "duplicated non-dominated points), documented RuntimeError when a sub-optimisation ends without a feasible "
+    "optimum (what a spent budget produces), normalisation forbidden",
+    "NLOPT_NEWUOA needs dimension >= 2 (NLopt) and is only given max_iter 1 or 2: once GEMSEO forces a stop near or "
+    "after the end of its initial interpolation set NLopt's C code spends 30-90 s before returning (no budget is "
+    "exceeded, the time budget of the check is, and no Python-level watchdog can interrupt it)",
     "at most as many equality-constraint components as design variables (NLopt's SLSQP otherwise fails with 'bug: "
     "workspace is too small')",
     "ScipyLinprog / ScipyMILP read coefficients and never call the functions while solving: their result is built "
     "from the solver's answer (not from the database), so only type, bounds and budget are checked for them and the "
     "constraints are made feasible at x0 (an infeasible LP is outside the property)",
-    "an objective that returns NaN is generated with problem.stop_if_nan left at its default True",
+    "an objective that returns NaN is generated with problem.stop_if_nan left at its default True; raising functions "
+    "are generated for DOEs only (an optimiser does not catch them, and the statement does not ask it to)",
     "a run whose callables are called more than 1500 times (far above any generated budget) is cut by the harness "
-    "(Runaway) and reported as 'nothing stopped the driver'",
+    "(Runaway); the budget oracles are applied to what was recorded until then; a run that stays within its budget of "
+    "points but never returns (an optimiser stalling on recorded points, e.g. SLSQP with store_jacobian=False "
+    "recomputing one gradient for ever) contradicts no clause of the statement and gets no verdict (class "
+    "stalled_on_recorded_points_cut_by_harness); a 120 s watchdog (SIGALRM) is a safety net for runs that call nothing "
+    "of the harness: it yields 'inconclusive', never a verdict",
     "third-party internal caches count as part of the algorithm: repeated calls at one point are never counted twice",
     "with max_time only the degenerate value 1e-9 is generated (fires at the first new-iteration callback; no "
     "wall-clock oracle)",
+    "DOE settings keep the design small and inside the bounds (PYDOE_CCDESIGN with face 'faced'/'inscribed': the "
+    "default 'circumscribed' star points leave the design space; sample placement is C14's matter)",
     "DOE samples that are equal as numbers but differ in the sign of a zero (-0.0 from rounding an integer component "
     "against 0.0) are two keys of the byte-hashed database and are evaluated twice: the property does not say whether "
     "they are 'distinct'; such designs get no verdict (class doe_signed_zero_twin_samples_no_verdict)",
+    "parallel DOE (n_processes=2, 1 case in 6): the functions run in forked workers, so only the database (keys, order, "
+    "values) and the counter of the main process are checked, rules are half-spaces, and with kept counters only the "
+    "budget of the run itself (number of samples) is required: the workers test copies of the counter",
     "DOE with normalize_design_space=True: database keys are compared with the samples to 4 ulp of the bound scale "
     "(the sample goes through normalise/unnormalise)",
+    "recorded values are compared with the polynomial re-evaluated on a copy of the key to 16 ulp of the sum of the "
+    "absolute terms (BLAS may sum a view and a copy in different orders)",
 ]
 
 # ledger predicates
@@ -115,6 +140,17 @@ def caps():
 
 
 # --------------------------------------------------------------------------- helpers
+class WallTimeout(Exception):
+    """Raised by the watchdog: a run that neither calls the user's functions nor returns (no verdict, reported as inconclusive)."""
+
+
+WATCHDOG_SECONDS = 120.0
+
+
+def _alarm(signum, frame):
+    raise WallTimeout
+
+
 class Excluded(Exception):
     """The case belongs to the class of an open ledger entry (or to a documented exception): no verdict."""
 
@@ -124,12 +160,21 @@ def _execute(h, algo, max_iter, settings, extra, ctx, where):
     from gemseo.algos.opt.factory import OptimizationLibraryFactory
 
     gc.disable()  # finalizers of multiprocessing.Value objects must not run inside the C callbacks of NLopt
+    # safety net only (never part of a verdict): an optimiser iterating for ever on recorded points calls nothing of the harness
+    watchdog = threading.current_thread() is threading.main_thread()
+    if watchdog:
+        previous = signal.signal(signal.SIGALRM, _alarm)
+        signal.setitimer(signal.ITIMER_REAL, WATCHDOG_SECONDS)
     try:
         with warnings.catch_warnings():
             warnings.simplefilter("ignore")
             result = OptimizationLibraryFactory().execute(h.problem, algo_name=algo, max_iter=max_iter, **settings, **extra)
     except Runaway:
         return None, True
+    except WallTimeout:
+        ctx.cls("watchdog_timeout_no_verdict")
+        ctx.inconclusive.append(f"{where}: {algo} (max_iter={max_iter}) did not return within {WATCHDOG_SECONDS:.0f} s and was cut by the watchdog")
+        raise Excluded from None
     except Exception as exc:  # noqa: BLE001
         if h.state["runaway"]:
             return None, True
@@ -142,22 +187,37 @@ def _execute(h, algo, max_iter, settings, extra, ctx, where):
         ctx.fail("returns", f"{where}: execute raised {type(exc).__name__}: {str(exc)[:300]} instead of returning a result",
                  algo=algo, max_iter=max_iter)
     finally:
+        if watchdog:
+            signal.setitimer(signal.ITIMER_REAL, 0.0)
+            signal.signal(signal.SIGALRM, previous)
         gc.enable()
     return result, h.state["runaway"]
 
 
 def _counted_points(h, marks, db_keys):
-    """Distinct physical points seen by the callables since ``marks``, derivative-approximation probes left out."""
+    """Distinct physical points seen by the callables since ``marks``, derivative-approximation probes left out.
+
+    With approximated derivatives the points are clustered: a point that differs from the representative of a
+    cluster in one component by at most 1e-5 * (ub - lb) is a probe of that point (forward / centred differences;
+    complex-step probes are dropped when recorded).  Database keys are the preferred representatives, then the points
+    in order of first call; two genuine iterates that close count once, which can only make the oracle more lenient.
+    """
     pts = h.distinct_points(marks)
     if h.spec.get("diff", "user") == "user":
         return pts
-    key_set = {point_key(k) for k in db_keys}
     scale = np.maximum(h.space.ub - h.space.lb, 1.0)
-    keys_arr = [np.asarray(k).real.astype(float) for k in db_keys]
+    reps = {point_key(k): np.asarray(k).real.astype(float) for k in db_keys}
     out = {}
     for key, p in pts.items():
-        if key in key_set or not any(near_one_component(p, q, scale) for q in keys_arr):
+        if key in reps:
             out[key] = p
+    for key, p in pts.items():
+        if key in reps:
+            continue
+        if any(near_one_component(p, q, scale) for q in reps.values()):
+            continue
+        reps[key] = p
+        out[key] = p
     return out
 
 
@@ -295,10 +355,14 @@ def _case_opt(p, ctx, cp, algo, cap, h, settings, use_db, n_iter, coefficient_so
             ctx.cls("database_off_runaway_cut_by_harness")
         if ctx.known(K_DB_OFF):
             return  # held to 'returns without raising' only (P15)
-    ctx.check(not runaway, "distinct_points",
-              f"first execution: nothing stopped {algo} (max_iter={n_iter}): the user's functions were called more than {CAP_CALLS} times",
-              algo=algo, max_iter=n_iter)
     growth, n_pts = _budget_oracles(h, p, ctx, "first execution", algo, cap, n_iter, marks, set(), n_iter, p["extra"])
+    if runaway and use_db:
+        # more than CAP_CALLS calls within the budget of distinct points: the algorithm stalls on recorded points (e.g. SLSQP
+        # with store_jacobian=False recomputing the gradient at one point for ever).  No entry, no point beyond the
+        # budget and nothing raised: the statement is not contradicted, the run simply never returns -> no verdict
+        ctx.cls("stalled_on_recorded_points_cut_by_harness")
+        ctx.note(f"{algo}: stalled on recorded points until the harness cut the run after {CAP_CALLS} calls (no verdict)")
+        return
     if not use_db:
         ctx.check(result is not None and result.x_opt is not None, "result",
                   "first execution: use_database=False: the result has no optimum (no history to build it from)")
@@ -353,7 +417,6 @@ def _case_opt(p, ctx, cp, algo, cap, h, settings, use_db, n_iter, coefficient_so
         marks2 = h.mark()
         h.state["nan_returned"] = 0
         result2, runaway2 = _execute(h, algo2, n2, settings2, extra2, ctx, "second execution")
-        ctx.check(not runaway2, "distinct_points", f"second execution: nothing stopped {algo2} (max_iter={n2})")
         allowed = n2 if reset else max(0, n2 - growth)
         if not reset:
             ctx.check(counter_before == growth, "counter",
@@ -366,6 +429,9 @@ def _case_opt(p, ctx, cp, algo, cap, h, settings, use_db, n_iter, coefficient_so
         ctx.check(counter2 == expected2, "counter",
                   f"second execution (reset_iteration_counters={reset}): the evaluation counter holds {counter2}, expected {expected2} "
                   f"({counter_before} before, {growth2} new entries)")
+        if runaway2:
+            ctx.cls("stalled_on_recorded_points_cut_by_harness")
+            return
         _check_result(h, result2, p, settings2, ctx, "second execution", cap2["library"] in ("ScipyLinprog", "ScipyMILP"))
         if "GEMSEO stopped the driver" in str(result2.message):
             ctx.cls("second_stopped_by_gemseo")
@@ -617,6 +683,8 @@ def case_doe(p, ctx):
             ctx.cls("doe_signed_zero_twin_samples_no_verdict")
             return
         left = None if reset else max(0, len(samples2) - counter)
+        if left is not None and int(p.get("n_processes", 1)) > 1:
+            left = len(samples2)  # the forked workers test copies of the counter: only the budget of this run applies
         stats2 = _doe_oracles(h, p, ctx, "second execution", samples2, old_keys, marks2, left)
         if stats2["n_fresh"]:
             ctx.cls("doe_second_with_new_samples")
@@ -647,10 +715,10 @@ def run(ctx):
     shrink = 15.0 if ctx.tier == "quick" else 120.0
     for name in single:
         if not failed("opt"):
-            ctx.drive("opt", opt_cases(cp["opt"], [name], non_global), _timed(case_opt), quick=16, thorough=110, shrink_s=shrink)
+            ctx.drive("opt", opt_cases(cp["opt"], [name], non_global), _timed(case_opt), quick=16, thorough=90, shrink_s=shrink)
     for name in composite:
         if not failed("composite"):
             ctx.drive("composite", opt_cases(cp["opt"], [name]), _timed(case_composite), quick=10, thorough=80, shrink_s=shrink)
     for name in sorted(cp["doe"]):
         if not failed("doe"):
-            ctx.drive("doe", doe_cases(cp["doe"], [name]), _timed(case_doe), quick=6, thorough=60, shrink_s=shrink)
+            ctx.drive("doe", doe_cases(cp["doe"], [name]), _timed(case_doe), quick=6, thorough=50, shrink_s=shrink)
